@@ -6,13 +6,13 @@ EXPLANATION = ("Bounded symbolic checking (engine S, REAL mode) of RandomTools, 
                "rewinding the symbolic stream gives 'the same random stream' twice. Parameter conventions then become exact statements over all streams (e.g. exp(-x/mean) = 1-u for the exponential draw), "
                "weighted picks are the index whose cumulative-weight interval contains u, and random contingency tables have the requested margins on every path (every outcome of every comparison with u).")
 FUNCTIONS = ["RandomTools::{giveRandomNumberBetweenZeroAndEntry,flipCoin,randExponential,randGaussian,randGamma (1,2 args),pickOne (4 overloads),pickFromCumSum,randMultinomial,getSample (2 overloads)}",
-             "std::{uniform_real,exponential,normal,gamma,bernoulli}_distribution::operator() (libstdc++, compiled into the units)", "ContingencyTableGenerator::{ctor,rcont2}",
+             "std::{uniform_real,exponential,normal,gamma,bernoulli}_distribution::operator() (libstdc++, compiled into the units)", "ContingencyTableGenerator::{ctor,rcont2}", "ContingencyTableTest::ContingencyTableTest (permutation p-value)",
              "GaussianDiscreteDistribution::randC", "ExponentialDiscreteDistribution::randC"]
 BOUNDS = ("all real parameters > 0 (means, variances, rates, weights); gamma shape in {2.5, 1, 0.5}; at most 7 uniform draws per path for the rejection samplers (normal: polar method, gamma: Marsaglia-Tsang); "
           "weighted picks over 1-3 elements with every pattern of zero weights; multinomial 0-2 draws; contingency tables with 2-3 rows and columns and every margin vector with total <= 4 (thorough: <= 6); "
           "unweighted sampling: source sizes 0-4, sample sizes 0-5 (integer draws use the real generator)")
 OUTSIDE = ["distributional goodness of fit (the claims are about parameter conventions and structure, for every stream)", "reproducibility of the Mersenne twister for a fixed seed (integer arithmetic of libstdc++)", "randBeta and the beta/gamma distributions' own draws (ratio of rejection-sampled gammas: more draws than the bound)",
-           "the independence test's p-value (permutation loop over many tables)", "paths where the samplers take the logarithm of a uniform draw equal to 0 (IEEE -inf not modelled; counted)", "the few long double computations are carried out as double in the symbolic build (-mlong-double-64); REAL mode is exact arithmetic"]
+           "the independence test with more than 2 permutations or tables beyond 2x2 with cells 0..2", "paths where the samplers take the logarithm of a uniform draw equal to 0 (IEEE -inf not modelled; counted)", "the few long double computations are carried out as double in the symbolic build (-mlong-double-64); REAL mode is exact arithmetic"]
 ASSUMPTIONS = BASE_ASSUMPTIONS + ["the stub of std::generate_canonical<double,53,mt19937> is the only change to the random machinery; it is injected with -include in the verification builds only"]
 LEVEL_TEXT = ("Bounded symbolic checking with the random stream as solver variables: the mean/rate/variance conventions of the samplers are identities over all streams, weighted and cumulative picks and multinomial draws return exactly the "
               "class whose interval contains the draw (zero-weight classes never), sampling keeps its structural constraints, random contingency tables have exactly the requested margins on every path.")
@@ -23,5 +23,6 @@ JOBS = [
     Job("samplers", "C18.cpp", ["HLO=0", "HHI=0"], env=E, budget_s=400, desc="uniform, coin, exponential(mean), gaussian(mean, variance), gamma(shape, rate), and the gaussian / exponential distributions' own draws"),
     Job("picks", "C18.cpp", ["HLO=1", "HHI=1", "NMAX=3"], env=E, budget_s=200, desc="weighted picks with and without replacement, cumulative-sum picks, multinomial draws, weighted sampling"),
     Job("contingency-tables", "C18.cpp", ["HLO=2", "HHI=2", "TOTMAX=4"], thorough_defines=["HLO=2", "HHI=2", "TOTMAX=6"], env=E, budget_s=300, thorough_budget_s=3000, desc="rcont2: exactly the requested row and column totals for every margin vector and every random stream"),
-    Job("sampling-structure", "C18.cpp", ["HLO=3", "HHI=3"], env=E, budget_s=100, desc="unweighted sampling with/without replacement: only source elements, distinct without replacement, over-long requests refused, emptiness reported"),
+    Job("independence-test", "C18.cpp", ["HLO=4", "HHI=4"], env=E, budget_s=200, desc="permutation independence test on every 2x2 table with cells 0..2, 1-2 permutations: p-value in (0,1] and of the form (count+1)/(permutations+1) for every random stream"),
+    Job("sampling-structure", "C18.cpp", ["HLO=5", "HHI=5"], env=E, budget_s=100, desc="unweighted sampling with/without replacement: only source elements, distinct without replacement, over-long requests refused, emptiness reported"),
 ]
